@@ -865,3 +865,25 @@ Example yearless_driver_before_example :
                                  | Found l => Some l | _ => None end) =
     Some [(tvc 2020 m1, [[50; 122; 10]])].
 Proof. vm_compute. reflexivity. Qed.
+
+(* FINDING W5 (genuine, on the shipped binary): the hypothesis "the LineReader can read every block" of the theorems above
+   FAILS for the block-zero-analysis state of a STREAMED file when a line of the first message begins exactly at the
+   end of block zero and is longer than a block: stage 1's find_sysline_in_block calls find_line_in_block at that
+   offset, which reads block 1, and the look-behind drop of the sequential decoder removes block 0 - BEFORE
+   disable_drop_data.  The reverse pass then cannot read block 0 again (Done), ends before the messages that begin
+   there, and stage 3 builds them with the FILLER year.  "2z\nwxyv\n2b\n", toy oracle dy2, tolerance 10, mtime year 7,
+   gz/bz2/lz4 at block size 3: the first message is emitted with the instant 122 (filler) instead of 6122; at block
+   sizes 4 and 9, as a tar member and as a plain file it is 6122 *)
+Definition fyg : file := [50; 122; 10; 119; 120; 121; 118; 10; 50; 98; 10].
+Definition run_fyg (b0 : bstate) (bs : N) : list N * option (list (option N * Z)) :=
+  let g := c_gate (dy2 None) 2 2 bs fyg (sr_init_b b0) in
+  (b_blocks (l_blk (s_lr g)),
+   option_map (map (fun s => (ss_begin bs s, ss_dt s)))
+              (match snd (c_stream_year dy2 bs fyg 10 7 None None [] g) with Found l => Some l | _ => None end)).
+Example yearless_streamed_gate_drop_witness :
+  run_fyg (b_open KSeq 3 (lenN fyg)) 3 = ([1], Some [(Some 0, 122%Z); (Some 8, 7098%Z)]) /\
+  run_fyg (b_open KSeq 4 (lenN fyg)) 4 = ([0], Some [(Some 0, 6122%Z); (Some 8, 7098%Z)]) /\
+  run_fyg (b_open KSeq 9 (lenN fyg)) 9 = ([0], Some [(Some 0, 6122%Z); (Some 8, 7098%Z)]) /\
+  snd (run_fyg (b_open KTar 3 (lenN fyg)) 3) = Some [(Some 0, 6122%Z); (Some 8, 7098%Z)] /\
+  snd (run_fyg (b_init false) 3) = Some [(Some 0, 6122%Z); (Some 8, 7098%Z)].
+Proof. vm_compute. repeat split; reflexivity. Qed.
